@@ -430,12 +430,15 @@ def overloads(ctx):
                 continue
             n += 1
             rets = [x for x in m.own_nodes() if isinstance(x, ast.Return)]
-            ok = len(rets) == 1 and isinstance(rets[0].value, ast.Call) and callee_qual(p, m, rets[0].value) == cls
-            if ok:
-                call = rets[0].value
-                names = [x.id for a in call.args for x in ast.walk(a) if isinstance(x, ast.Name)]
-                # operands in order: self first, then other
-                ok = names[:1] == [m.params[0]] and (len(m.params) == 1 or names[-1] == m.params[1])
+            ok = len(rets) >= 1
+            for r in rets:
+                okr = isinstance(r.value, ast.Call) and callee_qual(p, m, r.value) == cls
+                if okr:
+                    call = r.value
+                    names = [x.id for a in call.args for x in ast.walk(a) if isinstance(x, ast.Name)]
+                    # operands in order: self first, then other
+                    okr = names[:1] == [m.params[0]] and (len(m.params) == 1 or names[-1] == m.params[1])
+                ok = ok and okr
             ctx.ob(ok, m, '%s.%s builds %s(self, other) in that order: %s' % (c.name, d, cls.split('.')[1], [norm(r) for r in rets]))
     if n < 11:
         raise AnalysisError('C10.6 matched %d operator overloads, floor 11' % n)
@@ -515,4 +518,33 @@ def reflected_operators_keep_operand_order(ctx):
                 detail = '' if ok else 'does not build %s(other, self)' % comb.split('.')[1]
             ctx.ob(ok, c, '%s.%s builds the combinator with the left operand first' % (c.name, rname), detail)
     ctx.require(n >= 2, 'reflected operators of M expressions not found (%d)' % n)
+    ctx.floor(2)
+
+
+@rule('C10.15')
+def flattening_keeps_defaults(ctx):
+    """``a & b`` on an And, ``a | b`` on an Or flatten into one combinator to save a layer.  That
+    is the same pattern only when the left operand has no default of its own: And(x, default=D) & y
+    means And(And(x, default=D), y) -- D stands in for a failing x and y is still tried -- while
+    the flattened And(x, y) just fails"""
+    p = ctx.program
+    n = 0
+    for cq, m in (('matching.And', '__and__'), ('matching.Or', '__or__')):
+        c = ctx.cls(cq)
+        u = c.methods.get(m)
+        ctx.require(u is not None, '%s.%s not found' % (cq, m))
+        cfg = ctx.cfg(u)
+        flat = [nd for nd in cfg.nodes if nd.kind == 'stmt' and isinstance(nd.ast, ast.Return) and isinstance(nd.ast.value, ast.Call)
+                and any(isinstance(a, ast.Starred) for a in nd.ast.value.args)]
+        ctx.require(len(flat) >= 1, '%s.%s: flattening construction not found' % (cq, m))
+        for nd in flat:
+            n += 1
+            ok = False
+            for t in cfg.nodes:
+                if t.kind == 'test':
+                    pol = polarity(t.ast, '%s.default is _MISSING' % u.params[0])
+                    if pol and nd in exclusive(cfg, t, pol):
+                        ok = True
+            ctx.ob(ok, u, '%s.%s flattens only an operand without a default of its own: %s' % (c.name, m, norm(nd.ast)[:60]),
+                   '' if ok else 'the left operand\'s default= is dropped by the flattening', node=nd.ast)
     ctx.floor(2)
